@@ -12,10 +12,14 @@ import (
 	"errors"
 	"fmt"
 	"io"
+	"os"
 	"sync"
 
 	cose "github.com/veraison/go-cose"
 )
+
+// hThorough: the thorough tier widens the stated bounds (govc exports VERIF_TIER to the test run).
+func hThorough() bool { return os.Getenv("VERIF_TIER") == "thorough" }
 
 func hKey(curve elliptic.Curve) *ecdsa.PrivateKey {
 	k, err := ecdsa.GenerateKey(curve, rand.Reader)
@@ -45,13 +49,41 @@ func boundedTamper() (ok bool) {
 		}
 	}()
 	sets := validSets()
-	kA, kB := hKey(elliptic.P256()), hKey(elliptic.P256())
+	step := 7
+	algs := []struct {
+		alg   cose.Algorithm
+		curve elliptic.Curve
+	}{{cose.AlgorithmES256, elliptic.P256()}}
+	if hThorough() {
+		step = 1
+		algs = append(algs, struct {
+			alg   cose.Algorithm
+			curve elliptic.Curve
+		}{cose.AlgorithmES384, elliptic.P384()}, struct {
+			alg   cose.Algorithm
+			curve elliptic.Curve
+		}{cose.AlgorithmES512, elliptic.P521()})
+	}
+	for i, a := range algs {
+		st := step
+		if hThorough() {
+			st = []int{4, 48, 48}[i] // 48 ES256 tokens, 4 ES384 and 4 ES512 tokens, every single-bit flip of each
+		}
+		if !tamperWith(sets, st, a.alg, a.curve) {
+			return false
+		}
+	}
+	return true
+}
+
+func tamperWith(sets []IClaims, step int, alg cose.Algorithm, curve elliptic.Curve) bool {
+	kA, kB := hKey(curve), hKey(curve)
 	sign := func(c IClaims, k *ecdsa.PrivateKey) []byte {
 		ev := &Evidence{}
 		if err := ev.SetClaims(c); err != nil {
 			panic(err)
 		}
-		tok, err := ev.ValidateAndSign(hSigner(cose.AlgorithmES256, k))
+		tok, err := ev.ValidateAndSign(hSigner(alg, k))
 		if err != nil {
 			panic(err)
 		}
@@ -67,7 +99,7 @@ func boundedTamper() (ok bool) {
 		}
 		return ev.Verify(pk) == nil
 	}
-	for si := 0; si < len(sets); si += 7 {
+	for si := 0; si < len(sets); si += step {
 		tokA := sign(sets[si], kA)
 		tokB := sign(sets[(si+3)%len(sets)], kB)
 		if !verifies(tokA, kA.Public()) || !verifies(tokB, kB.Public()) {
@@ -263,6 +295,10 @@ func boundedHistories() (ok bool) {
 			return nil, e.UnmarshalCOSE([]byte{0xd2, 0x80}), false, true
 		}},
 	}
+	maxLen := 4
+	if hThorough() {
+		maxLen = 5
+	}
 	var rec func(seq []int) bool
 	rec = func(seq []int) bool {
 		if len(seq) > 0 {
@@ -281,7 +317,7 @@ func boundedHistories() (ok bool) {
 				}
 			}
 		}
-		if len(seq) == 4 {
+		if len(seq) == maxLen {
 			return true
 		}
 		for i := range ops {
